@@ -192,6 +192,26 @@ class StepOracle:
     def finish(self, res):
         out = self.out
         m = res["model"]
+        if self.do_moments and not out.viol:
+            # the recorded distributions once more, at the end of the run: a row written at step k must still be the distribution of
+            # step k (later steps must not write into it)
+            pd = m.pData
+            times = np.asarray(pd.time, dtype=float)
+            for p, pbm in enumerate(m.PBM):
+                if not getattr(pbm, "_record", False) or pbm._recordedTime is None or len(pbm._recordedTime) < 2:
+                    continue
+                for j in range(1, len(pbm._recordedTime)):
+                    hit = np.nonzero(times == pbm._recordedTime[j])[0]
+                    if len(hit) != 1:
+                        continue
+                    i = int(hit[0])
+                    Nrec = float(np.sum(pbm._recordedPSD[j]))
+                    Nrep = float(pd.precipitateDensity[i, p])
+                    nb = len(np.nonzero(pbm._recordedBins[j])[0])
+                    if abs(Nrec - Nrep) > max(nb, 1) * 1.0 + 1e-9 * abs(Nrep):       # up to one particle per class (documented removal)
+                        self._fail("psd_record_overwritten", "phase %d: the distribution recorded for t=%r sums to %r at the end of the run, the density reported for that step is %r" % (p, float(times[i]), Nrec, Nrep), step=i)
+                        break
+                self.flags.add("psd_records_rechecked_at_end")
         if res["truncated"]:
             out.label("truncated")
         for f in sorted(self.flags):
